@@ -196,6 +196,10 @@ inductive Event where
   | strayTimeout (channel : String) (seq : Nat)
   | donate (sender : String) (coin : Coin)
   | faucet (to : String) (coin : Coin)            -- tokens arriving from elsewhere (test set-up)
+  | reseq (next : Nat)
+    -- the next sequence number the chain will assign is `next`: ibc-go numbers packets per (port, channel), so after the
+    -- operator moves the contract to another channel the numbering continues wherever that channel's counter stands,
+    -- possibly on numbers already used on the previous channel (excluded from the honest environment: no re-routing)
 deriving Repr, Inhabited
 
 def sudoCall (w : World) (m : SudoMsg) : World × List Call :=
@@ -247,5 +251,6 @@ def step (w : World) : Event → TxResult
     | none => { w, committed := false, calls := [] }
     | some b => { w := { w with bal := b }, committed := true, calls := [] }
   | .faucet to coin => { w := { w with bal := w.bal.add to coin.denom coin.amount }, committed := true, calls := [] }
+  | .reseq n => { w := { w with nextSeq := n }, committed := true, calls := [] }
 
 end MW.Chain
